@@ -29,7 +29,8 @@ Definition regop_of (o : op) : option regop :=
   | _ => None
   end.
 
-Record lentry := LE { le_t : nat; le_op : regop; le_ret : ret }.
+(* le_gid: the acquisition number of the guard under which the entry was logged (0: through a handle) *)
+Record lentry := LE { le_t : nat; le_gid : nat; le_op : regop; le_ret : ret }.
 
 (* the entry appended by the step of thread t taken from (g, l), if that step is a linearization point:
    the end of the read window of load / operator T / read / a failing compare_exchange's second read, and
@@ -39,10 +40,11 @@ Definition lin_of (t : nat) (g : glob) (l : loc) : option lentry :=
   match at_ l with
   | Run fr (MRead :: rest) (S _) r ok =>
     match fr with
-    | FUse _ | FGuard Load _ | FGuard Cast _ | FGuard (ReadF _) _ => Some (LE t RLoad (RVal (val g)))
-    | FGuard (Cas e d) _ =>
+    | FUse _ => Some (LE t 0 RLoad (RVal (val g)))
+    | FGuard Load gid | FGuard Cast gid | FGuard (ReadF _) gid => Some (LE t gid RLoad (RVal (val g)))
+    | FGuard (Cas e d) gid =>
       match rest with
-      | [MWrite (Priv _) _] => Some (LE t (RCas e d) (RCasRes false (val g)))
+      | [MWrite (Priv _) _] => Some (LE t gid (RCas e d) (RCasRes false (val g)))
       | _ => None
       end
     | _ => None
@@ -50,9 +52,10 @@ Definition lin_of (t : nat) (g : glob) (l : loc) : option lentry :=
   | Run fr (MWrite Obj s :: rest) (S _) r ok =>
     let x := match s with Const v => v | Reg => r end in
     match fr with
-    | FGuard (Exchange _) _ => Some (LE t (RXchg x) (RVal r))
-    | FGuard (Cas e d) _ => Some (LE t (RCas e d) (RCasRes true e))
-    | _ => Some (LE t (RStore x) ROk)
+    | FGuard (Exchange _) gid => Some (LE t gid (RXchg x) (RVal r))
+    | FGuard (Cas e d) gid => Some (LE t gid (RCas e d) (RCasRes true e))
+    | FGuard _ gid => Some (LE t gid (RStore x) ROk)
+    | FUse _ => Some (LE t 0 (RStore x) ROk)
     end
   | _ => None
   end.
@@ -161,4 +164,317 @@ Proof.
   intros H1 H2 Hs Hl Hst Hv. destruct (tstep_val _ _ _ _ _ _ _ _ Hst) as [E|[fr [i [rest [ph [r [ok [Hp Hro]]]]]]]]; [congruence|].
   pose proof (I_cov _ _ _ H2 Hs t) as Hc. rewrite (locof_at _ _ _ Hl) in Hc.
   destruct (Hc _ _ _ _ _ Hp) as [Hx|[_ Hn]]; [exact Hx|]. cbn in Hn. rewrite Hro in Hn. discriminate.
+Qed.
+
+(* ---------- where each register operation stands in its body, and what its registers hold ---------- *)
+Definition X0 v := [MCall FID_ASSIGN true; MWrite (Priv P_XCHG) Reg; MCall FID_ASSIGN false; MWrite Obj (Const v)].
+Definition X1 v := [MWrite (Priv P_XCHG) Reg; MCall FID_ASSIGN false; MWrite Obj (Const v)].
+Definition X2 v := [MCall FID_ASSIGN false; MWrite Obj (Const v)].
+Definition X3 v := [MWrite Obj (Const v)].
+Definition CS1 d := [MCall FID_ASSIGN false; MWrite Obj (Const d)].
+Definition CS2 d := [MWrite Obj (Const d)].
+Definition CF1 := [MCall FID_ASSIGN false; MRead; MWrite (Priv P_EXP) Reg].
+Definition CF2 := [MRead; MWrite (Priv P_EXP) Reg].
+Definition CF3 := [MWrite (Priv P_EXP) Reg].
+
+Definition shape (g : glob) (t : nat) (lg : list lentry) (l : loc) : Prop :=
+  match at_ l with
+  | Run (FGuard o gid) code ph r ok =>
+    match o with
+    | Load | Cast => code = [MCall FID_COPY false; MRead] \/ code = [MRead]
+    | Store v | Assign v => code = [MCall FID_ASSIGN false; MWrite Obj (Const v)] \/ code = [MWrite Obj (Const v)]
+    | Exchange v => code = X0 v \/ ((code = X1 v \/ code = X2 v \/ code = X3 v) /\ r = val g)
+    | Cas e d =>
+      code = [MRead; MReadE e d] \/
+      (code = [MReadE e d] /\ r = val g) \/
+      ((code = CS1 d \/ code = CS2 d) /\ r = val g /\ r = e /\ ok = true) \/
+      ((code = CF1 \/ code = CF2) /\ val g <> e /\ ok = false) \/
+      (code = CF3 /\ ok = false /\ head_of t lg = Some (LE t gid (RCas e d) (RCasRes false r)))
+    | _ => True
+    end
+  | GRel o gid rv false =>
+    match regop_of o with
+    | Some ro => exists e, head_of t lg = Some e /\ le_gid e = gid /\ le_op e = ro /\ ret_code (le_ret e) = rv
+    | None => True
+    end
+  | _ => True
+  end.
+
+Lemma wop_code_regop cf o gsh code : wop_code cf o = Some (gsh, code) ->
+  match o with
+  | Load | Cast => code = [MCall FID_COPY false; MRead]
+  | Store v | Assign v => code = [MCall FID_ASSIGN false; MWrite Obj (Const v)]
+  | Exchange v => code = X0 v /\ gsh = false
+  | Cas e d => code = [MRead; MReadE e d] /\ gsh = false
+  | _ => True
+  end.
+Proof.
+  unfold wop_code. destruct o; auto; destruct (flav cf); cbn; intros H; inversion H; auto.
+Qed.
+
+Definition newlog (t : nat) (g : glob) (l : loc) (lg : list lentry) : list lentry :=
+  match lin_of t g l with Some e => e :: lg | None => lg end.
+
+Lemma run_next cf t c g pr sl o gid i rest ph r ok g' l' es :
+  tstep cf t c g (Loc pr (Run (FGuard o gid) (i :: rest) ph r ok) sl) = Some (g', l', es) ->
+  at_ l' =
+  (if m_thrown (exec_mi cf t i ph r ok g) then GRel o gid 0 true
+   else if negb (m_done (exec_mi cf t i ph r ok g))
+        then Run (FGuard o gid) (i :: rest) (S ph) (m_r (exec_mi cf t i ph r ok g)) (m_ok (exec_mi cf t i ph r ok g))
+        else match (match m_rest (exec_mi cf t i ph r ok g) with Some c' => c' | None => rest end) with
+             | [] => GRel o gid (wop_ret o (m_r (exec_mi cf t i ph r ok g)) (m_ok (exec_mi cf t i ph r ok g))) false
+             | x :: y => Run (FGuard o gid) (x :: y) 0 (m_r (exec_mi cf t i ph r ok g)) (m_ok (exec_mi cf t i ph r ok g))
+             end).
+Proof.
+  unfold tstep. cbn [at_ slots prog]. intros Hs.
+  destruct (m_thrown _); [inversion Hs; reflexivity|].
+  destruct (negb (m_done _)); [inversion Hs; reflexivity|].
+  destruct (match m_rest _ with Some c' => c' | None => rest end); inversion Hs; reflexivity.
+Qed.
+
+(* the thread that steps *)
+Lemma shape_own_step cf t c g l g' l' es lg :
+  locok cf l -> shape g t lg l -> tstep cf t c g l = Some (g', l', es) -> shape g' t (newlog t g l lg) l'.
+Proof.
+  intros [Hlen Hpc] Hsh Hs. destruct l as [pr p sl]. unfold shape, newlog, lin_of in *. cbn [at_ slots] in *.
+  destruct p.
+  1-4: step_cases Hs; cbn [at_]; exact I.
+  - (* the guard is taken: the body starts *)
+    step_cases Hs. cbn [at_]. pose proof (wop_code_regop _ _ _ _ Heqo0) as Hc.
+    destruct o; auto; try (left; exact Hc); left; apply Hc.
+  - (* one phase of the body *)
+    destruct code as [|i rest]; [discriminate|].
+    destruct fr as [o gid|a].
+    2: { (* through a handle: not a register operation of the wrapper *)
+      unfold tstep in Hs. cbn [at_ slots prog] in Hs.
+      destruct (m_thrown _); [inversion Hs; exact I|].
+      destruct (negb (m_done _)); [inversion Hs; exact I|].
+      destruct (match m_rest _ with Some c' => c' | None => rest end); inversion Hs; exact I. }
+    destruct o; try (
+      unfold tstep in Hs; cbn [at_ slots prog] in Hs;
+      destruct (m_thrown _); [inversion Hs; exact I|];
+      destruct (negb (m_done _)); [inversion Hs; exact I|];
+      destruct (match m_rest _ with Some c' => c' | None => rest end); inversion Hs; exact I).
+    all: cbv beta iota in Hsh; unfold X0, X1, X2, X3, CS1, CS2, CF1, CF2, CF3 in *.
+    all: pose proof (tstep_glob_run _ _ _ _ _ _ _ _ _ _ _ _ _ _ _ Hs) as Hg;
+         pose proof (run_next _ _ _ _ _ _ _ _ _ _ _ _ _ _ _ _ Hs) as Hp; clear Hs;
+         destruct l' as [pr' p' sl']; cbn [at_] in Hp |- *; subst p' g'.
+    all: repeat match goal with
+         | H : _ \/ _ |- _ => destruct H
+         | H : _ /\ _ |- _ => destruct H
+         end.
+    all: repeat match goal with H : _ :: _ = _ :: _ |- _ => inversion H; clear H; subst end.
+    all: unfold exec_mi, rd_begin, rd_end, wr_begin, wr_end, cas_branch.
+    all: try match goal with |- context [existsb ?f ?l] => destruct (existsb f l) end.
+    all: try (destruct ph as [|ph]).
+    all: cbn -[Z.mul Z.add]; rewrite ?Nat.eqb_refl.
+    all: try exact I.
+    all: try match goal with |- context [?a =? ?b] => destruct (Z.eqb_spec a b) end; cbn -[Z.mul Z.add].
+    all: try (intuition (reflexivity || congruence || lia); fail).
+    all: try (eexists; repeat split; cbn -[Z.mul Z.add]; first [reflexivity | lia]; fail).
+    all: try (eexists; split; [eassumption|]; split; [reflexivity|]; split; [reflexivity|]; cbn -[Z.mul Z.add]; lia).
+  - (* the guard is released *) step_cases Hs; cbn [at_]; exact I.
+Qed.
+
+Lemma lin_of_tid t g l e : lin_of t g l = Some e -> le_t e = t.
+Proof.
+  unfold lin_of. destruct (at_ l); try discriminate. destruct code as [|[fid snap| |[|b] s| |e0 d] rest]; try discriminate;
+    destruct ph; try discriminate.
+  - destruct fr as [[] gid|]; try discriminate; try (intros H; inversion H; reflexivity).
+    destruct rest as [|[| |[|b] s| |] [|]]; try discriminate; intros H; inversion H; reflexivity.
+  - destruct fr as [[] gid|]; intros H; inversion H; reflexivity.
+Qed.
+Lemma newlog_other t u g l lg : u <> t -> head_of u (newlog t g l lg) = head_of u lg.
+Proof.
+  intros Hne. unfold newlog. destruct (lin_of t g l) as [e|] eqn:E; [|reflexivity].
+  cbn [head_of]. rewrite (lin_of_tid _ _ _ _ E). destruct (Nat.eqb_spec t u); [congruence|reflexivity].
+Qed.
+Lemma gmode_xc cf o : (match o with Exchange _ | Cas _ _ => True | _ => False end) -> gmode cf o = false.
+Proof. unfold gmode, wop_code. destruct o; try tauto; intros _; destruct (has_xc (flav cf)); reflexivity. Qed.
+
+(* the threads that do not step: their registers still hold the current value, because nobody else writes
+   while they hold the exclusive guard *)
+Lemma shape_other_step cf g ls t c l g' l' es lg u lu :
+  Inv1 cf g ls -> Inv2 cf g ls -> safe cf g -> nth_error ls t = Some l ->
+  tstep cf t c g l = Some (g', l', es) -> u <> t -> nth_error ls u = Some lu ->
+  shape g u lg lu -> shape g' u (newlog t g l lg) lu.
+Proof.
+  intros H1 H2 Hs Hl Hst Hne Hu Hsh. unfold shape in *. rewrite (newlog_other _ _ _ _ _ Hne).
+  destruct (Z.eq_dec (val g') (val g)) as [Ev|Ev]; [rewrite Ev; exact Hsh|].
+  pose proof (val_change_holder _ _ _ _ _ _ _ _ _ H1 H2 Hs Hl Hst Ev) as Hx.
+  rewrite <- (locof_at _ _ _ Hl) in Hx.
+  destruct (excl_locks cf g ls t u H1 (not_eq_sym Hne) ltac:(lia)) as [Ex _].
+  rewrite (locof_at _ _ _ Hu) in Ex. unfold lx in Ex.
+  destruct (at_ lu) as [| | | | |fr code ph r ok|o gid rv exn]; try exact I; [|exact Hsh].
+  destruct fr as [o gid|a]; [|exact I].
+  destruct o; try exact Hsh; exfalso; cbn [pcx] in Ex; rewrite gmode_xc in Ex by exact I; cbn in Ex; lia.
+Qed.
+
+Lemma tstep_mono cf t c g l g' l' es : tstep cf t c g l = Some (g', l', es) ->
+  (misuse g <= misuse g')%nat /\ (incrs g <= incrs g')%nat.
+Proof.
+  intros Hs. destruct l as [pr p sl].
+  destruct p; try (destruct (tstep_val_nonrun _ _ _ _ _ _ _ _ Hs) as [_ [Ei Em]]; [cbn; intros; discriminate|]; lia).
+  destruct code as [|i rest]; [discriminate|].
+  pose proof (tstep_glob_run _ _ _ _ _ _ _ _ _ _ _ _ _ _ _ Hs) as ->.
+  destruct (exec_mi_fields cf t i ph r ok g) as [_ [Ei Em]]. rewrite Ei, Em. split; [lia|].
+  destruct i; try lia. destruct ph as [|[|[|ph]]]; lia.
+Qed.
+
+(* the log stays a legal sequential run ending in the current value *)
+Lemma legal_step cf g t c l g' l' es lg x0 :
+  shape g t lg l -> tstep cf t c g l = Some (g', l', es) -> incrs g' = 0%nat ->
+  legal x0 lg (val g) -> legal x0 (newlog t g l lg) (val g').
+Proof.
+  intros Hsh Hs Hi HL. destruct l as [pr p sl]. unfold newlog, lin_of, shape in *. cbn [at_] in *.
+  destruct p; try (destruct (tstep_val_nonrun _ _ _ _ _ _ _ _ Hs) as [Ev _]; [cbn; intros; discriminate|]; rewrite Ev; exact HL).
+  destruct code as [|i rest]; [discriminate|].
+  pose proof (tstep_glob_run _ _ _ _ _ _ _ _ _ _ _ _ _ _ _ Hs) as ->.
+  destruct (exec_mi_fields cf t i ph r ok g) as [Ev [Ei _]]. rewrite Ev. rewrite Ei in Hi. clear Hs Ev Ei.
+  destruct i as [fid snap| |[|b] s| |e0 d0]; try exact HL.
+  - (* MRead *) destruct ph as [|ph]; [exact HL|].
+    destruct fr as [o gid|a]; [|econstructor; [exact HL|reflexivity]].
+    destruct o; try exact HL; try (econstructor; [exact HL|reflexivity]).
+    destruct rest as [|[| |[|b] s| |] [|]]; try exact HL.
+    econstructor; [exact HL|]. cbn [le_op le_ret reg_apply].
+    unfold CF1, CF2, CF3 in Hsh.
+    destruct Hsh as [E|[[E _]|[[[E|E] _]|[[[E|E] [Hv _]]|[E _]]]]]; try discriminate.
+    destruct (Z.eqb_spec (val g) e); [contradiction|reflexivity].
+  - (* MWrite Obj *) destruct ph as [|ph]; [exact HL|].
+    destruct fr as [o gid|a]; [|econstructor; [exact HL|reflexivity]].
+    destruct o; try (econstructor; [exact HL|reflexivity]).
+    + (* exchange *) unfold X0, X1, X2, X3 in Hsh. destruct Hsh as [E|[[E|[E|E]] Hr]]; try discriminate.
+      inversion E. subst s rest. rewrite Hr. econstructor; [exact HL|reflexivity].
+    + (* compare_exchange, success *) unfold CS1, CS2, CF1, CF2, CF3 in Hsh.
+      destruct Hsh as [E|[[E _]|[[[E|E] [Hr [He _]]]|[[[E|E] _]|[E _]]]]]; try discriminate.
+      inversion E. subst s rest. econstructor; [exact HL|]. cbn [le_op le_ret reg_apply]. rewrite <- Hr, He, Z.eqb_refl. reflexivity.
+  - (* MIncr *) destruct ph as [|[|[|ph]]]; try exact HL. discriminate.
+Qed.
+
+(* ---------- the invariant of the logged run ---------- *)
+Record InvL (cf : config) (G : lglob) (ls : list loc) : Prop := {
+  L_inv : Inv cf (fst G) ls;
+  L_shape : safe cf (fst G) -> forall u lu, nth_error ls u = Some lu -> shape (fst G) u (snd G) lu;
+  L_legal : safe cf (fst G) -> incrs (fst G) = 0%nat -> legal (init_val cf) (snd G) (val (fst G))
+}.
+
+Lemma InvL_step cf : forall G ls t c l G' l' es,
+  InvL cf G ls -> nth_error ls t = Some l -> ltstep cf t c G l = Some (G', l', es) -> InvL cf G' (upd ls t l').
+Proof.
+  intros [g lg] ls t c l G' l' es [HI Hsh HL] Hl Hs. unfold ltstep in Hs. cbn [fst snd] in *.
+  destruct (tstep cf t c g l) as [[[g' l1] es1]|] eqn:Hst; [|discriminate]. inversion Hs; subst; clear Hs.
+  fold (newlog t g l lg). cbn [fst snd].
+  destruct (tstep_mono _ _ _ _ _ _ _ _ Hst) as [Hm Hi].
+  assert (Hsafe : safe cf g' -> safe cf g) by (intros [? ?]; split; [assumption|lia]).
+  destruct HI as [H1 H2].
+  constructor; cbn [fst snd].
+  - eapply Inv_step; eauto. split; assumption.
+  - intros Hs' u lu Hu. specialize (Hsh (Hsafe Hs')).
+    destruct (nth_upd _ _ _ _ _ Hu) as [[-> [-> _]]|[Hne Hu']].
+    + eapply shape_own_step; eauto. eapply I_ok; eauto.
+    + eapply shape_other_step; eauto.
+  - intros Hs' Hi'. eapply legal_step; eauto. apply HL; [auto|lia].
+Qed.
+
+Lemma InvL_init cf progs : InvL cf (gl (linit cf progs)) (thr (linit cf progs)).
+Proof.
+  unfold linit. cbn [gl thr fst snd]. constructor; cbn [fst snd].
+  - split; [apply Inv1_init|apply Inv2_init].
+  - intros _ u lu Hu. unfold init in Hu. cbn [thr] in Hu. rewrite nth_error_map in Hu.
+    destruct (nth_error progs u); cbn in Hu; inversion Hu; subst. exact I.
+  - intros _ _. constructor.
+Qed.
+Lemma RL_inv cf progs s : RL cf progs s -> InvL cf (gl s) (thr s).
+Proof. intros H. eapply reachable_inv; [apply InvL_step|apply InvL_init|exact H]. Qed.
+
+Lemma legal_fun x0 lg : forall x y, legal x0 lg x -> legal x0 lg y -> x = y.
+Proof.
+  induction lg as [|e lg IH]; intros x y Hx Hy; inversion Hx; inversion Hy; subst; [reflexivity|].
+  match goal with A : legal x0 lg ?a, B : legal x0 lg ?b |- _ => pose proof (IH _ _ A B); subst end. congruence.
+Qed.
+
+(* ---------- C15 ---------- *)
+(* the log of every reachable state is a legal sequential run of the register from the initial value, and it
+   ends in the current payload value (the value of the last completed write: the payload is updated in the very
+   step that logs the write).  Hypotheses: locking enabled / no use of moved-from handles (safe) and no
+   completed read-increment-write (modify / incr through a handle are not register operations). *)
+Lemma reg_linearizable_l cf progs s : RL cf progs s -> safe cf (fst (gl s)) -> incrs (fst (gl s)) = 0%nat ->
+  legal (init_val cf) (llog s) (val (fst (gl s))).
+Proof. intros HR. apply (L_legal _ _ _ (RL_inv _ _ _ HR)). Qed.
+
+(* the logging step applies reg_apply to the payload value current at that step: exchange records the value it
+   replaced, compare_exchange succeeds exactly when current = expected and otherwise reports current *)
+Lemma reg_seq_refines_l cf progs s t c l g' l' es e :
+  RL cf progs s -> safe cf (fst (gl s)) -> nth_error (thr s) t = Some l ->
+  tstep cf t c (fst (gl s)) l = Some (g', l', es) -> incrs g' = 0%nat -> lin_of t (fst (gl s)) l = Some e ->
+  reg_apply (val (fst (gl s))) (le_op e) = (val g', le_ret e).
+Proof.
+  intros HR Hs Hl Hst Hi He. destruct (RL_inv _ _ _ HR) as [_ Hsh HLg].
+  destruct (tstep_mono _ _ _ _ _ _ _ _ Hst) as [_ Hi0].
+  assert (HL0 : legal (init_val cf) (snd (gl s)) (val (fst (gl s)))) by (apply HLg; [exact Hs|lia]).
+  pose proof (legal_step cf _ t c l g' l' es _ _ (Hsh Hs t l Hl) Hst Hi HL0) as HL.
+  unfold newlog in HL. rewrite He in HL.
+  inversion HL as [|e0 lg0 x x' Hx Hr]; subst. rewrite (legal_fun _ _ _ _ HL0 Hx). exact Hr.
+Qed.
+
+(* every completed register operation returns the value its own log entry records *)
+Lemma reg_returns_logged_l cf progs s t l o gid rv ro :
+  RL cf progs s -> safe cf (fst (gl s)) -> nth_error (thr s) t = Some l ->
+  at_ l = GRel o gid rv false -> regop_of o = Some ro ->
+  (exists e, head_of t (llog s) = Some e /\ le_gid e = gid /\ le_op e = ro /\ ret_code (le_ret e) = rv) /\
+  forall c, exists g' l' e0, tstep cf t c (fst (gl s)) l = Some (g', l', [e0; ret_ev rv]) /\ at_ l' = Idle.
+Proof.
+  intros HR Hs Hl Hp Hro. destruct (RL_inv _ _ _ HR) as [[H1 _] Hsh _].
+  pose proof (Hsh Hs t l Hl) as S0. unfold shape in S0. rewrite Hp, Hro in S0. split; [exact S0|].
+  intros c. destruct (I_ok _ _ _ H1 _ _ Hl) as [_ Hpc]. rewrite Hp in Hpc.
+  destruct l as [pr p sl]. cbn [at_] in Hp. subst p. unfold tstep. cbn [at_ slots prog].
+  destruct (wop_code cf o) as [[gsh code]|]; [|congruence]. unfold release. eexists _, _, _. split; reflexivity.
+Qed.
+
+(* the linearization point lies inside the call: the logging step is a step of the operation's body (pc Run:
+   after the invocation step and the acquisition of the guard, before the release / return step), it is taken
+   by the logging thread, and that thread holds the mutex *)
+Lemma reg_lin_point_inside_call_l cf progs s t l e :
+  RL cf progs s -> nth_error (thr s) t = Some l -> lin_of t (fst (gl s)) l = Some e ->
+  le_t e = t /\ (exists fr code ph r ok, at_ l = Run fr code ph r ok) /\
+  (safe cf (fst (gl s)) -> (1 <= lx cf l + lsh cf l)%nat).
+Proof.
+  intros HR Hl He. split; [eapply lin_of_tid; eauto|].
+  assert (exists fr code ph r ok, at_ l = Run fr code ph r ok) as Hrun.
+  { unfold lin_of in He. destruct (at_ l); try discriminate. repeat eexists. }
+  split; [exact Hrun|]. intros Hs. destruct Hrun as [fr [code [ph [r [ok Hp]]]]].
+  destruct (RL_inv _ _ _ HR) as [[_ H2] _ _].
+  pose proof (I_cov _ _ _ H2 Hs t) as Hc. rewrite (locof_at _ _ _ Hl) in Hc.
+  destruct (Hc _ _ _ _ _ Hp) as [?|[? _]]; lia.
+Qed.
+(* ... and the pcs after it (the guard's destructor, compare_exchange's write-back of `expected`) log nothing *)
+Lemma reg_no_second_entry t g l : 
+  (forall fr code ph r ok, at_ l <> Run fr code ph r ok) \/
+  (exists fr b s rest ph r ok, at_ l = Run fr (MWrite (Priv b) s :: rest) ph r ok) -> lin_of t g l = None.
+Proof.
+  unfold lin_of. intros [Hn|[fr [b [s [rest [ph [r [ok ->]]]]]]]]; [|reflexivity].
+  destruct (at_ l); try reflexivity. exfalso. eapply Hn; reflexivity.
+Qed.
+
+(* a load never returns a dirty value: when a read window of the wrapped object is about to close, no write
+   window is open and the value is not half-written *)
+Lemma reg_no_torn_load_l cf progs s t l : R cf progs s -> safe cf (gl s) ->
+  nth_error (thr s) t = Some l -> rdopen (at_ l) = 1%nat ->
+  dirty (gl s) = false /\ forall u, wropen (at_ (locof (thr s) u)) = false.
+Proof.
+  intros HR Hs Hl Hr. destruct (R_inv _ _ _ HR) as [H1 H2].
+  destruct (rdopen_run _ Hr) as [fr [code [ph [r [ok Hp]]]]].
+  pose proof (I_cov _ _ _ H2 Hs t) as Hc. rewrite (locof_at _ _ _ Hl) in Hc.
+  assert (Hlk : (1 <= lx cf (locof (thr s) t) + lsh cf (locof (thr s) t))%nat).
+  { rewrite (locof_at _ _ _ Hl). destruct (Hc _ _ _ _ _ Hp) as [?|[? _]]; lia. }
+  assert (Hw : wropen (at_ (locof (thr s) t)) = false).
+  { rewrite (locof_at _ _ _ Hl). destruct (at_ l); try reflexivity.
+    destruct code0 as [|[| |[]| |] ?]; try reflexivity; cbn in Hr; try discriminate.
+    destruct ph0 as [|[|[|?]]]; try reflexivity; discriminate. }
+  split; [apply (covered_clean cf _ _ t H1 H2 Hs Hlk Hw)|].
+  intros u. destruct (Nat.eq_dec u t) as [->|Hne]; [exact Hw|].
+  destruct (wropen (at_ (locof (thr s) u))) eqn:E; [|reflexivity]. exfalso.
+  destruct (wropen_run _ E) as [fr' [i [rest [ph' [r' [ok' [Hq Hro]]]]]]].
+  destruct (I_cov _ _ _ H2 Hs u _ _ _ _ _ Hq) as [Hx|[_ Hn]]; [|cbn in Hn; rewrite Hro in Hn; discriminate].
+  destruct (excl_locks cf _ _ u t H1 Hne ltac:(lia)). lia.
 Qed.
